@@ -53,6 +53,8 @@ func init() {
 	logf.SetLogger(logr.Discard())
 	// Every allocator lookup in the worlds succeeds at the first attempt; a single step
 	// keeps error paths (which the oracle expects for some scenarios) free of real sleeps.
+	// no cloud-call rate limit, 300 ms batching delay of the pool's factory worker -> 1 ms
+	eni.VerifFastPool(300)
 	backoff.OverrideBackoff(map[string]wait.Backoff{
 		backoff.WaitPodENIStatus: {Duration: time.Millisecond, Factor: 1, Steps: 1},
 	})
@@ -507,7 +509,42 @@ func c12GenAllocs(t *rapid.T, w *c12World, trunk bool) []c12Alloc {
 		}
 		out = append(out, a)
 	}
+	// Incomplete records: an allocation whose subnet is missing (record kept from an older
+	// controller) or too small to hold the reserved gateway (/31, /32, /127, /128). The
+	// daemon hands out no configuration for such a PodENI; what it must never do is return
+	// an address without its subnet and gateway.
+	if rapid.IntRange(0, 7).Draw(t, "incomplete") == 7 {
+		a := &out[rapid.IntRange(0, n-1).Draw(t, "incomplete_at")]
+		kinds := []string{"cidr4-empty", "cidr4-31", "cidr4-32"}
+		if a.V6 != "" {
+			kinds = []string{"cidr6-empty", "cidr6-127", "cidr6-128", "cidr6-empty", "cidr6-127", "cidr4-empty", "cidr4-31", "cidr4-32"}
+		}
+		switch rapid.SampledFrom(kinds).Draw(t, "incomplete_kind") {
+		case "cidr4-empty":
+			a.CIDR4 = ""
+		case "cidr4-31":
+			a.CIDR4 = netip.PrefixFrom(netip.MustParseAddr(a.V4), 31).Masked().String()
+		case "cidr4-32":
+			a.CIDR4 = netip.PrefixFrom(netip.MustParseAddr(a.V4), 32).String()
+		case "cidr6-empty":
+			a.CIDR6 = ""
+		case "cidr6-127":
+			a.CIDR6 = netip.PrefixFrom(netip.MustParseAddr(a.V6), 127).Masked().String()
+		case "cidr6-128":
+			a.CIDR6 = netip.PrefixFrom(netip.MustParseAddr(a.V6), 128).String()
+		}
+	}
 	return out
+}
+
+// c12Usable: the subnet exists and has a third-from-last address (>= 2 host bits).
+func c12Usable(cidr string) bool {
+	p, err := netip.ParsePrefix(cidr)
+	return err == nil && p.Addr().BitLen()-p.Bits() >= 2
+}
+
+func (a *c12Alloc) incomplete() bool {
+	return (a.V4 != "" && !c12Usable(a.CIDR4)) || (a.V6 != "" && !c12Usable(a.CIDR6))
 }
 
 func c12GenWorld(t *rapid.T) c12World {
@@ -593,6 +630,7 @@ func c12GenWorld(t *rapid.T) c12World {
 type c12K8s struct {
 	k8s.Kubernetes // unimplemented methods are not reached by AllocIP
 	pod            *daemon.PodInfo
+	pods           map[string]*daemon.PodInfo // history worlds: several pods
 	svc            *terwayTypes.IPNetSet
 	cl             client.Client
 	mu             sync.Mutex
@@ -600,7 +638,11 @@ type c12K8s struct {
 }
 
 func (k *c12K8s) GetPod(ctx context.Context, namespace, name string, cache bool) (*daemon.PodInfo, error) {
-	if namespace != k.pod.Namespace || name != k.pod.Name {
+	if p, ok := k.pods[namespace+"/"+name]; ok {
+		cp := *p
+		return &cp, nil
+	}
+	if k.pod == nil || namespace != k.pod.Namespace || name != k.pod.Name {
 		return nil, fmt.Errorf("pod %s/%s not found", namespace, name)
 	}
 	cp := *k.pod
@@ -691,22 +733,33 @@ type c12Live struct {
 	svc       *terwaydaemon.C12Service
 	k         *c12K8s
 	factories []*c12Factory
+	locals    []*eni.Local
 	cancel    context.CancelFunc
 	wg        *sync.WaitGroup
 }
 
 func (l *c12Live) stop(c *vt.Ctx) {
 	l.cancel()
+	c12StopPools(c, l.locals, l.wg)
+}
+
+// c12StopPools waits for the pool workers after the case context was cancelled.
+// Local.notify broadcasts without holding the lock, so a worker that has just checked
+// ctx.Done() can miss the wake-up; keep waking the condition until they are gone.
+func c12StopPools(c *vt.Ctx, locals []*eni.Local, wg *sync.WaitGroup) {
 	done := make(chan struct{})
-	go func() { l.wg.Wait(); close(done) }()
-	select {
-	case <-done:
-	case <-time.After(100 * time.Millisecond):
-		// Local.notify broadcasts without holding the lock, so a worker that has just
-		// checked ctx.Done() can miss the wake-up and stay parked on its private
-		// condition variable. It shares nothing with later cases; leave it behind.
-		c.Label("pool-worker-parked")
+	go func() { wg.Wait(); close(done) }()
+	for i := 0; i < 2000; i++ {
+		for _, lo := range locals {
+			eni.VerifWake(lo)
+		}
+		select {
+		case <-done:
+			return
+		case <-time.After(time.Millisecond):
+		}
 	}
+	c.Label("pool-worker-parked")
 }
 
 func c12PodENIObject(w *c12World) *networkv1beta1.PodENI {
@@ -854,9 +907,13 @@ func c12Build(c *vt.Ctx, w *c12World) *c12Live {
 			}
 			var ni eni.NetworkInterface
 			if i == w.Trunk {
-				ni = eni.NewTrunk(cl, eni.NewLocal(c12DaemonENI(c, w, e, true), "trunk", f, pc))
+				lo := eni.NewLocal(c12DaemonENI(c, w, e, true), "trunk", f, pc)
+				live.locals = append(live.locals, lo)
+				ni = eni.NewTrunk(cl, lo)
 			} else {
-				ni = eni.NewLocal(c12DaemonENI(c, w, e, false), typ, f, pc)
+				lo := eni.NewLocal(c12DaemonENI(c, w, e, false), typ, f, pc)
+				live.locals = append(live.locals, lo)
+				ni = lo
 			}
 			// what the daemon's store remembers of the other pods
 			var prev []daemon.PodResources
@@ -916,7 +973,9 @@ func c12CheckFamily(c *vt.Ctx, what, ip, cidr, gw string, want *c12Want, wantIP,
 	if err != nil {
 		c.Fatalf("%s: subnet %q does not parse: %v", what, cidr, err)
 	}
-	if p.Masked() != c12Prefix(c, wantCIDR) {
+	// (an incomplete record has no usable vSwitch subnet to compare with; whatever subnet
+	// the reply reports must still satisfy the clauses below)
+	if c12Usable(wantCIDR) && p.Masked() != c12Prefix(c, wantCIDR) {
 		c.Fatalf("%s: subnet %q, the allocation's vSwitch is %q", what, cidr, wantCIDR)
 	}
 	a, _ := c12ParseAddr(ip)
@@ -1086,13 +1145,18 @@ func c12CheckReply(c *vt.Ctx, w *c12World, rpcName string, reply c12AnyReply) {
 			c.Fatalf("%s: no address information", what)
 		}
 		ip, cidr, gw := bi.GetPodIP(), bi.GetPodCIDR(), bi.GetGatewayIP()
-		if (ip.GetIPv4() != "") != (wn.v4 != "") || (ip.GetIPv6() != "") != (wn.v6 != "") {
+		// a family whose subnet is unusable in the record may be left out of the reply; a
+		// family the reply carries must come with subnet and gateway
+		miss4 := ip.GetIPv4() == "" && wn.v4 != "" && !c12Usable(wn.cidr4)
+		miss6 := ip.GetIPv6() == "" && wn.v6 != "" && !c12Usable(wn.cidr6)
+		if ((ip.GetIPv4() != "") != (wn.v4 != "") && !miss4) || ((ip.GetIPv6() != "") != (wn.v6 != "") && !miss6) ||
+			(ip.GetIPv4() == "" && ip.GetIPv6() == "") {
 			c.Fatalf("%s: families of pod address %v differ from the allocation (v4=%q v6=%q)", what, ip, wn.v4, wn.v6)
 		}
-		if wn.v4 != "" {
+		if wn.v4 != "" && !miss4 {
 			c12CheckFamily(c, what+" ipv4", ip.GetIPv4(), cidr.GetIPv4(), gw.GetIPv4(), wn, wn.v4, wn.cidr4, wn.gw4)
 		}
-		if wn.v6 != "" {
+		if wn.v6 != "" && !miss6 {
 			c12CheckFamily(c, what+" ipv6", ip.GetIPv6(), cidr.GetIPv6(), gw.GetIPv6(), wn, wn.v6, wn.cidr6, wn.gw6)
 		}
 		if wn.deflt != nil && nc.GetDefaultRoute() != *wn.deflt {
@@ -1154,14 +1218,17 @@ func c12CNIConf(c *vt.Ctx, s *c12CNI) *types.CNIConf {
 }
 
 func c12CheckIPNet(c *vt.Ctx, what string, got *net.IPNet, ip, cidr string) {
-	if ip == "" || cidr == "" {
+	if ip == "" {
 		if got != nil {
 			c.Fatalf("%s: parser produced %v, the daemon sent no address of that family", what, got)
 		}
 		return
 	}
 	if got == nil {
-		c.Fatalf("%s: parser dropped address %s/%s", what, ip, cidr)
+		c.Fatalf("%s: parser dropped address %s (subnet %q) the daemon sent", what, ip, cidr)
+	}
+	if cidr == "" {
+		c.Fatalf("%s: parser produced %v for address %s sent without a subnet", what, got, ip)
 	}
 	if !c12IPEq(got.IP, ip) {
 		c.Fatalf("%s: parser address %s, the daemon sent %s", what, got.IP, ip)
@@ -1390,6 +1457,13 @@ func c12RunWorld(c *vt.Ctx, w c12World) {
 		}
 	}
 	malformed := w.podENI() && (nDefault > 1 || nPrimary == 0)
+	incomplete := false
+	for i := range w.Allocs {
+		incomplete = incomplete || w.Allocs[i].incomplete()
+	}
+	if incomplete {
+		c.Label("podeni-incomplete-record")
+	}
 	if w.podENI() {
 		c.Labelf("podeni-defaults:%d", min(nDefault, 2))
 		if nPrimary == 0 {
@@ -1458,7 +1532,17 @@ func c12RunWorld(c *vt.Ctx, w c12World) {
 				c.Label("refused-malformed")
 				return
 			}
+			if incomplete {
+				c.Label("refused-incomplete")
+				return
+			}
 			c.Fatalf("AllocIP failed on a well-formed allocation: %v", err)
+		}
+		if incomplete && len(reply.GetNetConfs()) == 0 {
+			// no configuration is handed out for an incomplete record (the plugin then
+			// fails the ADD with "eth0 config is missing" and rolls back)
+			c.Label("no-configuration-for-incomplete")
+			return
 		}
 		if malformed {
 			// a success is acceptable only if the reply is repaired; the checks below decide
@@ -1536,6 +1620,373 @@ func c12RunWorld(c *vt.Ctx, w c12World) {
 }
 
 func TestVerifC12World(t *testing.T) { vt.Run(t, c12GenWorld, c12RunWorld) }
+
+// ---------------------------------------------------------------- pool history (legacy shared-ENI pool)
+//
+// One ADD per world never recycles an ENI slot. Here a legacy pool of empty slots
+// (eni.NewLocal(nil, ...), as daemon/builder.go creates them) lives through a generated
+// history of ADD / DEL / balancer passes over a small cloud whose new ENIs land in
+// different vSwitches; every successful ADD reply is put under the address clause:
+// each address inside the reported subnet, the subnet is the vSwitch of the ENI that
+// owns the IPv4 address, the gateway is that ENI's.
+
+type c12HVsw struct {
+	CIDR4 string `json:"cidr4"`
+	CIDR6 string `json:"cidr6,omitempty"`
+	GW4   string `json:"gw4"`
+	GW6   string `json:"gw6,omitempty"`
+}
+
+type c12HOp struct {
+	K   string `json:"k"` // add | del | shrink
+	Pod int    `json:"pod,omitempty"`
+}
+
+type c12Hist struct {
+	Stack  string    `json:"stack"` // ipv4 | dual
+	Vsw    []c12HVsw `json:"vsw"`
+	VswSeq []int     `json:"vsw_seq"` // vSwitch of the n-th ENI the cloud creates
+	Slots  int       `json:"slots"`
+	Cap    int       `json:"cap"`   // addresses per ENI
+	Batch  int       `json:"batch"` // pool batch size
+	Ops    []c12HOp  `json:"ops"`
+	CNI    c12CNI    `json:"cni"`
+}
+
+func c12GenHist(t *rapid.T) c12Hist {
+	h := c12Hist{Stack: rapid.SampledFrom([]string{"dual", "dual", "dual", "ipv4"}).Draw(t, "stack")}
+	nv := rapid.IntRange(2, 3).Draw(t, "nvsw")
+	for i := 0; i < nv; i++ {
+		var b [4]byte
+		b[0], b[1], b[2] = c12Lead4[i], rapid.Byte().Draw(t, "b"), rapid.Byte().Draw(t, "b")
+		p4 := netip.PrefixFrom(netip.AddrFrom4(b), rapid.IntRange(16, 25).Draw(t, "prefix4")).Masked()
+		v := c12HVsw{CIDR4: p4.String(), GW4: c12AddrAt(p4, -3).String()}
+		if h.Stack == "dual" {
+			p6 := c12GenSubnet(t, true)
+			a := p6.Addr().As16()
+			a[1] = byte(i)
+			p6 = netip.PrefixFrom(netip.AddrFrom16(a), 64).Masked()
+			v.CIDR6, v.GW6 = p6.String(), c12AddrAt(p6, -3).String()
+		}
+		h.Vsw = append(h.Vsw, v)
+	}
+	h.VswSeq = rapid.SliceOfN(rapid.IntRange(0, nv-1), 4, 4).Draw(t, "vsw_seq")
+	h.Slots = rapid.IntRange(1, 2).Draw(t, "slots")
+	h.Cap = rapid.IntRange(1, 3).Draw(t, "cap")
+	h.Batch = rapid.IntRange(1, 2).Draw(t, "batch")
+	op := rapid.Custom(func(t *rapid.T) c12HOp {
+		k := rapid.SampledFrom([]string{"add", "add", "add", "del", "del", "shrink", "shrink"}).Draw(t, "k")
+		o := c12HOp{K: k}
+		if k != "shrink" {
+			o.Pod = rapid.IntRange(0, 2).Draw(t, "pod")
+		}
+		return o
+	})
+	// chunks: single operations, or "pod comes and goes, balancer gives the ENI back" —
+	// the sequence after which a slot is recycled by the next ADD
+	chunk := rapid.Custom(func(t *rapid.T) []c12HOp {
+		if rapid.IntRange(0, 3).Draw(t, "cycle") == 3 {
+			p := rapid.IntRange(0, 2).Draw(t, "pod")
+			return []c12HOp{{K: "add", Pod: p}, {K: "del", Pod: p}, {K: "shrink"}}
+		}
+		return []c12HOp{op.Draw(t, "op")}
+	})
+	for _, ch := range rapid.SliceOfN(chunk, 2, vt.Scale(8, 12)).Draw(t, "chunks") {
+		h.Ops = append(h.Ops, ch...)
+	}
+	h.CNI = c12GenCNI(t)
+	return h
+}
+
+type c12CloudENI struct {
+	id     string
+	vsw    int
+	v4, v6 map[netip.Addr]bool
+}
+
+// c12Cloud is the factory of the history worlds: it keeps the ground truth of which
+// address is assigned to which live ENI. Addresses are never reused.
+type c12Cloud struct {
+	mu      sync.Mutex
+	h       *c12Hist
+	enis    map[string]*c12CloudENI
+	created int
+	next4   []int64
+	next6   []int64
+	deleted int
+}
+
+func (cl *c12Cloud) addr(vsw int, v6 bool) netip.Addr {
+	if v6 {
+		cl.next6[vsw]++
+		return c12AddrAt(netip.MustParsePrefix(cl.h.Vsw[vsw].CIDR6), cl.next6[vsw])
+	}
+	cl.next4[vsw]++
+	return c12AddrAt(netip.MustParsePrefix(cl.h.Vsw[vsw].CIDR4), cl.next4[vsw])
+}
+
+func (cl *c12Cloud) CreateNetworkInterface(ipv4, ipv6 int, eniType string) (*daemon.ENI, []netip.Addr, []netip.Addr, error) {
+	cl.mu.Lock()
+	defer cl.mu.Unlock()
+	vsw := cl.h.VswSeq[cl.created%len(cl.h.VswSeq)]
+	cl.created++
+	e := &c12CloudENI{id: fmt.Sprintf("eni-%d", cl.created), vsw: vsw, v4: map[netip.Addr]bool{}, v6: map[netip.Addr]bool{}}
+	cl.enis[e.id] = e
+	var v4s, v6s []netip.Addr
+	for i := 0; i < max(ipv4, 1); i++ {
+		a := cl.addr(vsw, false)
+		e.v4[a] = true
+		v4s = append(v4s, a)
+	}
+	for i := 0; i < ipv6; i++ {
+		a := cl.addr(vsw, true)
+		e.v6[a] = true
+		v6s = append(v6s, a)
+	}
+	v := cl.h.Vsw[vsw]
+	d := &daemon.ENI{ID: e.id, VSwitchID: fmt.Sprintf("vsw-%d", vsw)}
+	d.PrimaryIP.IPv4 = net.ParseIP(v4s[0].String())
+	d.GatewayIP.IPv4 = net.ParseIP(v.GW4)
+	_, d.VSwitchCIDR.IPv4, _ = net.ParseCIDR(v.CIDR4)
+	if cl.h.Stack == "dual" {
+		d.GatewayIP.IPv6 = net.ParseIP(v.GW6)
+		_, d.VSwitchCIDR.IPv6, _ = net.ParseCIDR(v.CIDR6)
+	}
+	return d, v4s, v6s, nil
+}
+
+func (cl *c12Cloud) assign(eniID string, count int, v6 bool) ([]netip.Addr, error) {
+	cl.mu.Lock()
+	defer cl.mu.Unlock()
+	e := cl.enis[eniID]
+	if e == nil {
+		return nil, fmt.Errorf("InvalidEniId.NotFound %s", eniID)
+	}
+	var out []netip.Addr
+	for i := 0; i < count; i++ {
+		a := cl.addr(e.vsw, v6)
+		if v6 {
+			e.v6[a] = true
+		} else {
+			e.v4[a] = true
+		}
+		out = append(out, a)
+	}
+	return out, nil
+}
+func (cl *c12Cloud) AssignNIPv4(eniID string, count int, mac string) ([]netip.Addr, error) {
+	return cl.assign(eniID, count, false)
+}
+func (cl *c12Cloud) AssignNIPv6(eniID string, count int, mac string) ([]netip.Addr, error) {
+	return cl.assign(eniID, count, true)
+}
+func (cl *c12Cloud) unassign(eniID string, ips []netip.Addr) error {
+	cl.mu.Lock()
+	defer cl.mu.Unlock()
+	if e := cl.enis[eniID]; e != nil {
+		for _, a := range ips {
+			delete(e.v4, a)
+			delete(e.v6, a)
+		}
+	}
+	return nil
+}
+func (cl *c12Cloud) UnAssignNIPv4(eniID string, ips []netip.Addr, mac string) error {
+	return cl.unassign(eniID, ips)
+}
+func (cl *c12Cloud) UnAssignNIPv6(eniID string, ips []netip.Addr, mac string) error {
+	return cl.unassign(eniID, ips)
+}
+func (cl *c12Cloud) DeleteNetworkInterface(eniID string) error {
+	cl.mu.Lock()
+	defer cl.mu.Unlock()
+	if _, ok := cl.enis[eniID]; ok {
+		delete(cl.enis, eniID)
+		cl.deleted++
+	}
+	return nil
+}
+func (cl *c12Cloud) LoadNetworkInterface(mac string) ([]netip.Addr, []netip.Addr, error) {
+	return nil, nil, fmt.Errorf("c12: not used, the slots start empty")
+}
+func (cl *c12Cloud) GetAttachedNetworkInterface(preferTrunkID string) ([]*daemon.ENI, error) {
+	return nil, nil
+}
+
+// owner returns the live ENI an IPv4 address is assigned to.
+func (cl *c12Cloud) owner(a netip.Addr) *c12CloudENI {
+	cl.mu.Lock()
+	defer cl.mu.Unlock()
+	for _, e := range cl.enis {
+		if e.v4[a] {
+			return e
+		}
+	}
+	return nil
+}
+
+func c12RunHist(c *vt.Ctx, h c12Hist) {
+	c.Label("stack:" + h.Stack)
+	dual := h.Stack == "dual"
+	ctx, cancel := context.WithCancel(context.Background())
+	wg := &sync.WaitGroup{}
+	cloud := &c12Cloud{h: &h, enis: map[string]*c12CloudENI{}, next4: make([]int64, len(h.Vsw)), next6: make([]int64, len(h.Vsw))}
+	pc := &daemon.PoolConfig{EnableIPv4: true, EnableIPv6: dual, MaxIPPerENI: h.Cap, BatchSize: h.Batch,
+		Capacity: h.Slots * h.Cap, MaxENI: h.Slots}
+	var locals []*eni.Local
+	var nis []eni.NetworkInterface
+	for i := 0; i < h.Slots; i++ {
+		lo := eni.NewLocal(nil, "secondary", cloud, pc)
+		if err := lo.Run(ctx, nil, wg); err != nil {
+			cancel()
+			c.Fatalf("harness: start slot: %v", err)
+		}
+		locals = append(locals, lo)
+		nis = append(nis, lo)
+	}
+	defer func() {
+		cancel()
+		c12StopPools(c, locals, wg)
+	}()
+
+	k := &c12K8s{pods: map[string]*daemon.PodInfo{}, cl: fake.NewClientBuilder().WithScheme(terwayTypes.Scheme).Build()}
+	k.svc = &terwayTypes.IPNetSet{IPv4: c12ParseIPNet(c, "172.16.0.0/16")}
+	if dual {
+		k.svc.IPv6 = c12ParseIPNet(c, "fd5c::/112")
+	}
+	for i := 0; i < 3; i++ {
+		name := fmt.Sprintf("p%d", i)
+		k.pods["default/"+name] = &daemon.PodInfo{Name: name, Namespace: "default", PodUID: "uid-" + name,
+			PodNetworkType: daemon.PodNetworkTypeENIMultiIP}
+	}
+	// the balancer keeps no idle address: every pass gives back what is not in use
+	mgr := eni.NewManager(0, 0, h.Slots*h.Cap, 0, nis, daemon.EniSelectionPolicyMostIPs, k)
+	svc := terwaydaemon.C12NewService(terwaydaemon.C12Options{
+		DaemonMode: daemon.ModeENIMultiIP, EnableIPv4: true, EnableIPv6: dual, K8s: k, DB: storage.NewMemoryStorage(), Mgr: mgr,
+	})
+	conf := c12CNIConf(c, &h.CNI)
+	args := c12Args(&h.CNI)
+
+	settle := func() {
+		deadline := time.Now().Add(10 * time.Second)
+		for {
+			busy := false
+			for _, lo := range locals {
+				eni.VerifWake(lo)
+				if in := eni.VerifInspect(lo); in.Status == "Deleting" || in.Deleting > 0 {
+					busy = true
+				}
+			}
+			if !busy {
+				return
+			}
+			if time.Now().After(deadline) {
+				c.Inconclusive("pool did not settle after a balancer pass")
+			}
+			time.Sleep(time.Millisecond)
+		}
+	}
+
+	added := map[int]bool{}
+	adds, recycled := 0, false
+	for i, op := range h.Ops {
+		name := fmt.Sprintf("p%d", op.Pod)
+		switch op.K {
+		case "add":
+			actx, acancel := context.WithTimeout(context.Background(), 10*time.Second)
+			reply, err := svc.AllocIP(actx, &rpc.AllocIPRequest{Netns: args.Netns, K8SPodName: name, K8SPodNamespace: "default",
+				K8SPodInfraContainerId: "sandbox-" + name, IfName: args.IfName})
+			timedOut := actx.Err() != nil
+			acancel()
+			c.Trace("op %d add %s -> %v err=%v", i, name, reply, err)
+			if err != nil {
+				if timedOut {
+					c.Inconclusive("AllocIP deadline")
+				}
+				// a full pool refuses; capacity is another property's business
+				c.Label("add-refused")
+				continue
+			}
+			added[op.Pod] = true
+			adds++
+			if cloud.deleted > 0 {
+				recycled = true
+			}
+			ncs := reply.GetNetConfs()
+			if len(ncs) != 1 {
+				c.Fatalf("op %d: pool ADD answered %d configurations", i, len(ncs))
+			}
+			nc := ncs[0]
+			what := fmt.Sprintf("op %d add %s", i, name)
+			ip, cidr, gw := nc.GetBasicInfo().GetPodIP(), nc.GetBasicInfo().GetPodCIDR(), nc.GetBasicInfo().GetGatewayIP()
+			if ip.GetIPv4() == "" || (ip.GetIPv6() != "") != dual {
+				c.Fatalf("%s: families of pod address %v differ from the pool's (%s)", what, ip, h.Stack)
+			}
+			a4, _ := c12ParseAddr(ip.GetIPv4())
+			own := cloud.owner(a4)
+			if own == nil {
+				// handing out an address the cloud does not know is not the address clause
+				// of C12; without an owner there is no ground truth for the subnet
+				c.Label("ipv4-without-live-eni")
+				continue
+			}
+			v := h.Vsw[own.vsw]
+			wn := &c12Want{}
+			c12CheckFamily(c, what+" ipv4", ip.GetIPv4(), cidr.GetIPv4(), gw.GetIPv4(), wn, ip.GetIPv4(), v.CIDR4, v.GW4)
+			if dual {
+				c12CheckFamily(c, what+" ipv6", ip.GetIPv6(), cidr.GetIPv6(), gw.GetIPv6(), wn, ip.GetIPv6(), v.CIDR6, v.GW6)
+				a6, _ := c12ParseAddr(ip.GetIPv6())
+				if !own.v6[a6] {
+					c.Label("ipv6-not-on-the-ipv4-eni")
+				}
+			}
+			if nc.GetDefaultRoute() != true || (nc.GetIfName() != "" && nc.GetIfName() != "eth0") {
+				c.Fatalf("%s: pool configuration is not the primary default-route interface: %v", what, nc)
+			}
+			b, err := proto.Marshal(nc)
+			if err != nil {
+				c.Fatalf("marshal: %v", err)
+			}
+			wire := &rpc.NetConf{}
+			if err := proto.Unmarshal(b, wire); err != nil {
+				c.Fatalf("unmarshal: %v", err)
+			}
+			cfg, err := parseSetupConf(args, wire, conf, reply.GetIPType())
+			if err != nil {
+				c.Fatalf("%s: plugin rejects %v: %v", what, wire, err)
+			}
+			c12CheckParsed(c, what+" plugin", cfg, wire, conf, &h.CNI, reply.GetIPType(), args.IfName)
+		case "del":
+			if !added[op.Pod] {
+				continue
+			}
+			dctx, dcancel := context.WithTimeout(context.Background(), 10*time.Second)
+			_, err := svc.ReleaseIP(dctx, &rpc.ReleaseIPRequest{K8SPodName: name, K8SPodNamespace: "default",
+				K8SPodInfraContainerId: "sandbox-" + name})
+			dcancel()
+			c.Trace("op %d del %s err=%v", i, name, err)
+			if err == nil {
+				delete(added, op.Pod)
+			}
+		case "shrink":
+			sctx, scancel := context.WithTimeout(context.Background(), 10*time.Second)
+			eni.VerifSyncPool(sctx, mgr)
+			scancel()
+			settle()
+			c.Trace("op %d shrink: cloud has %d ENIs, %d deleted so far", i, len(cloud.enis), cloud.deleted)
+		}
+	}
+	c.Labelf("adds:%d", min(adds, 4))
+	if recycled {
+		c.Label("add-after-eni-disposed")
+		c.NonTrivial()
+	}
+	if dual {
+		c.NonTrivial()
+	}
+}
+
+func TestVerifC12PoolHistory(t *testing.T) { vt.Run(t, c12GenHist, c12RunHist) }
 
 // ---------------------------------------------------------------- parser on generated NetConfs
 
